@@ -102,14 +102,14 @@ variable {K N T : Type} [DecidableEq K]
 
 theorem refused_eq (s : St K N T) (id : K) (sys : Bool) :
     refused s id sys = match s.ents.get id with
-      | some e => e.isSystem && !sys
+      | some e => e.protectedBy s.reg && !sys
       | none => false := rfl
 
 theorem refused_sys (s : St K N T) (id : K) : refused s id true = false := by
   unfold refused; cases s.ents.get id <;> simp
 
 theorem refused_of_get {s : St K N T} {id : K} {e : Ent K N T} (h : s.ents.get id = some e) (sys : Bool) :
-    refused s id sys = (e.isSystem && !sys) := by
+    refused s id sys = (e.protectedBy s.reg && !sys) := by
   rw [refused_eq, h]
 
 theorem refused_of_none {s : St K N T} {id : K} (h : s.ents.get id = none) (sys : Bool) :
@@ -120,6 +120,26 @@ theorem refused_of_none {s : St K N T} {id : K} (h : s.ents.get id = none) (sys 
 @[simp] theorem putEnt_owners (s : St K N T) (id : K) (e : Ent K N T) : (s.putEnt id e).owners = s.owners := rfl
 @[simp] theorem delEnt_ents (s : St K N T) (id : K) : (s.delEnt id).ents = s.ents.del id := rfl
 @[simp] theorem delEnt_owners (s : St K N T) (id : K) : (s.delEnt id).owners = s.owners := rfl
+@[simp] theorem putEnt_reg (s : St K N T) (id : K) (e : Ent K N T) : (s.putEnt id e).reg = s.reg := rfl
+@[simp] theorem delEnt_reg (s : St K N T) (id : K) : (s.delEnt id).reg = s.reg := rfl
+
+theorem protectedBy_eq (e : Ent K N T) (reg : Reg) : e.protectedBy reg = (guarded reg e && e.isSystem) := rfl
+
+/-- an ordinary entity is protected under no registration -/
+theorem protectedBy_of_not_system {e : Ent K N T} (reg : Reg) (h : e.isSystem = false) : e.protectedBy reg = false := by
+  rw [protectedBy_eq, h, Bool.and_false]
+
+theorem protectedBy_of {e : Ent K N T} {reg : Reg} (hg : guarded reg e = true) (hs : e.isSystem = true) :
+    e.protectedBy reg = true := by
+  rw [protectedBy_eq, hg, hs]; rfl
+
+/-- with the constraint on S every entity is looked at; with the constraint on C those with child data -/
+theorem guarded_onS {reg : Reg} (h : reg.onS = true) (e : Ent K N T) : guarded reg e = true := by
+  unfold guarded; rw [h]; rfl
+
+theorem guarded_onC {reg : Reg} (h : reg.onC = true) {e : Ent K N T} (hl : e.level.isSome = true) :
+    guarded reg e = true := by
+  unfold guarded; rw [h, hl]; simp
 
 /-! ### what the persist step writes -/
 
@@ -265,7 +285,7 @@ theorem delMany_sys (s : St K N T) (ids : List K) : (delMany true s ids).2 = non
 /-- **whatever an ordinary context deletes in a batch — even in the partial state a refused batch
     leaves behind — no system entity is among it** -/
 theorem delMany_keeps_system (s : St K N T) (ids : List K) {x : K} {e : Ent K N T}
-    (hg : s.ents.get x = some e) (hs : e.isSystem = true) :
+    (hg : s.ents.get x = some e) (hs : e.protectedBy s.reg = true) :
     (delMany false s ids).1.ents.get x = some e := by
   induction ids generalizing s with
   | nil => exact hg
@@ -276,11 +296,12 @@ theorem delMany_keeps_system (s : St K N T) (ids : List K) {x : K} {e : Ent K N 
     | false =>
       simp only [Bool.false_eq_true, if_false]
       apply ih
-      rw [delEnt_ents, Map.get_del]
-      have : id ≠ x := by
-        intro hx; subst hx
-        rw [refused_of_get hg, hs] at h; simp at h
-      simp [this, hg]
+      · rw [delEnt_ents, Map.get_del]
+        have : id ≠ x := by
+          intro hx; subst hx
+          rw [refused_of_get hg, hs] at h; simp at h
+        simp [this, hg]
+      · exact hs
 
 /-- a batch only ever removes entities: what is still there is what was there -/
 theorem delMany_get (sys : Bool) (s : St K N T) (ids : List K) (x : K) :
@@ -309,7 +330,7 @@ theorem delMany_ctx_irrelevant (s : St K N T) (ids : List K)
       intro c
       cases hg : s.ents.get id with
       | none => exact refused_of_none hg c
-      | some e => rw [refused_of_get hg, h id (List.mem_cons_self ..) e hg]; rfl
+      | some e => rw [refused_of_get hg, protectedBy_of_not_system _ (h id (List.mem_cons_self ..) e hg)]; rfl
     rw [delMany_cons, delMany_cons, hr c1, hr c2]
     simp only [Bool.false_eq_true, if_false]
     apply ih
@@ -352,17 +373,17 @@ theorem commitTx_ok {s : St K N T} {k : Bool} {ops : List (Op K N T)} (h : (runO
 theorem createOn_eq (s : St K N T) (sys : Bool) (id : K) (v : Vals K N T) (lvl : Option N) (e0 : Ent K N T) :
     createOn s sys id v lvl e0 =
       if !ownerOk s v.owner then { st := s.putEnt id (mkEnt v lvl e0), err := some .noOwner }
-      else if (v.flag || e0.isSystem) && !sys then { st := s.putEnt id (mkEnt v lvl e0), err := some .sysCreate }
+      else if (mkEnt v lvl e0).protectedBy s.reg && !sys then { st := s.putEnt id (mkEnt v lvl e0), err := some .sysCreate }
       else { st := s.putEnt id (mkEnt v lvl e0) } := by
-  have hr : refused (s.putEnt id (mkEnt v lvl e0)) id sys = ((v.flag || e0.isSystem) && !sys) := by
-    rw [refused_eq, putEnt_ents, Map.get_put]; simp only [if_true]; rw [mkEnt_isSystem]
+  have hr : refused (s.putEnt id (mkEnt v lvl e0)) id sys = ((mkEnt v lvl e0).protectedBy s.reg && !sys) := by
+    rw [refused_eq, putEnt_ents, Map.get_put]; simp only [if_true, putEnt_reg]
   unfold createOn
   simp only [hr]
 
 theorem updateOn_eq {s : St K N T} {id : K} {e : Ent K N T} (hg : s.ents.get id = some e) (sys : Bool)
     (v : Vals K N T) (sn st so : Bool) (lvl : Option (Bool × N)) :
     updateOn s sys id v sn st so lvl e =
-      if e.isSystem && !sys then { st := s, err := some .sysUpdate }
+      if e.protectedBy s.reg && !sys then { st := s, err := some .sysUpdate }
       else if decide ((updEnt v sn st so lvl e).owner ≠ e.owner) && !ownerOk s (updEnt v sn st so lvl e).owner then
         { st := s.putEnt id (updEnt v sn st so lvl e), err := some .noOwner }
       else { st := s.putEnt id (updEnt v sn st so lvl e) } := by
@@ -375,7 +396,7 @@ theorem deleteOne_missing {s : St K N T} {id : K} (hg : s.ents.get id = none) (s
 
 theorem deleteOne_found {s : St K N T} {id : K} {e : Ent K N T} (hg : s.ents.get id = some e) (sys : Bool) :
     deleteOne s sys id =
-      if e.isSystem && !sys then { st := s, err := some .sysDelete } else { st := s.delEnt id } := by
+      if e.protectedBy s.reg && !sys then { st := s, err := some .sysDelete } else { st := s.delEnt id } := by
   simp only [deleteOne, hg, refused_of_get hg]
 
 theorem step_create_blank (s : St K N T) (sys : Bool) (id : K) (v : Vals K N T) :
@@ -435,7 +456,7 @@ theorem step_odelete_found {s : St K N T} {o : K} (h : o ∈ s.owners) (sys : Bo
     step s (.odelete sys o) =
       if (refs s o).any (fun y => refused s y sys) then
         { st := (delMany sys s (refs s o)).1, err := some .viaSysDelete }
-      else { st := { ents := unlinkAll (s.ents.delAll (refs s o)) o, owners := s.owners.filter (· ≠ o) } } := by
+      else { st := { s with ents := unlinkAll (s.ents.delAll (refs s o)) o, owners := s.owners.filter (· ≠ o) } } := by
   have he := delMany_err sys s (refs s o)
   simp only [step, h, if_true, cascadeCtx]
   cases ha : (refs s o).any (fun y => refused s y sys) with
@@ -675,7 +696,7 @@ theorem runHistG_fst (sg : St K N T × Map K Bool) (txs : List (Bool × List (Op
 def FlagInv (sg : St K N T × Map K Bool) : Prop :=
   ∀ id, (sg.1.ents.get id).map Ent.isSystem = sg.2.get id
 
-theorem flagInv_nil : FlagInv ((St.empty : St K N T), ([] : Map K Bool)) := by intro id; rfl
+theorem flagInv_nil (reg : Reg) : FlagInv ((St.empty reg : St K N T), ([] : Map K Bool)) := by intro id; rfl
 
 theorem flagInv_put {s : St K N T} {g : Map K Bool} (h : FlagInv (s, g)) (id : K) (e : Ent K N T) :
     FlagInv (s.putEnt id e, g.put id e.isSystem) := by
@@ -697,16 +718,16 @@ theorem flagInv_put_same {s : St K N T} {g : Map K Bool} (h : FlagInv (s, g)) {i
     simp [hs, this]
   · simp only [hx, if_false]; exact h x
 
-theorem flagInv_delAll {m : Map K (Ent K N T)} {ow : List K} {g : Map K Bool} (h : FlagInv (⟨m, ow⟩, g))
-    (ids ow' : List K) : FlagInv (⟨m.delAll ids, ow'⟩, g.delAll ids) := by
+theorem flagInv_delAll {m : Map K (Ent K N T)} {ow : List K} {r : Reg} {g : Map K Bool} (h : FlagInv (⟨m, ow, r⟩, g))
+    (ids ow' : List K) : FlagInv (⟨m.delAll ids, ow', r⟩, g.delAll ids) := by
   intro x
   simp only [Map.get_delAll]
   by_cases hx : x ∈ ids
   · simp [hx]
   · simp only [hx, if_false]; exact h x
 
-theorem flagInv_unlinkAll {m : Map K (Ent K N T)} {ow : List K} {g : Map K Bool} (h : FlagInv (⟨m, ow⟩, g))
-    (o : K) (ow' : List K) : FlagInv (⟨unlinkAll m o, ow'⟩, g) := by
+theorem flagInv_unlinkAll {m : Map K (Ent K N T)} {ow : List K} {r : Reg} {g : Map K Bool} (h : FlagInv (⟨m, ow, r⟩, g))
+    (o : K) (ow' : List K) : FlagInv (⟨unlinkAll m o, ow', r⟩, g) := by
   intro x
   have := h x
   simp only [get_unlinkAll] at this ⊢
@@ -716,7 +737,7 @@ theorem flagInv_unlinkAll {m : Map K (Ent K N T)} {ow : List K} {g : Map K Bool}
 theorem createOn_ok {s : St K N T} {sys : Bool} {id : K} {v : Vals K N T} {lvl : Option N} {e0 : Ent K N T}
     (h : (createOn s sys id v lvl e0).err = none) :
     createOn s sys id v lvl e0 = { st := s.putEnt id (mkEnt v lvl e0) } ∧ ownerOk s v.owner = true ∧
-      ((v.flag || e0.isSystem) && !sys) = false := by
+      ((mkEnt v lvl e0).protectedBy s.reg && !sys) = false := by
   rw [createOn_eq] at h ⊢
   split at h
   · cases h
@@ -730,7 +751,7 @@ theorem updateOn_ok {s : St K N T} {id : K} {e0 : Ent K N T} (hg : s.ents.get id
     {v : Vals K N T} {sn st so : Bool} {lvl : Option (Bool × N)}
     (h : (updateOn s sys id v sn st so lvl e0).err = none) :
     updateOn s sys id v sn st so lvl e0 = { st := s.putEnt id (updEnt v sn st so lvl e0) } ∧
-      (e0.isSystem && !sys) = false := by
+      (e0.protectedBy s.reg && !sys) = false := by
   rw [updateOn_eq hg] at h ⊢
   split at h
   · cases h
@@ -740,7 +761,7 @@ theorem updateOn_ok {s : St K N T} {id : K} {e0 : Ent K N T} (hg : s.ents.get id
       simp only [h1, h2, if_false, Bool.false_eq_true, true_and]
 
 theorem deleteOne_ok {s : St K N T} {id : K} {sys : Bool} (h : (deleteOne s sys id).err = none) :
-    ∃ e0, s.ents.get id = some e0 ∧ (e0.isSystem && !sys) = false ∧ deleteOne s sys id = { st := s.delEnt id } := by
+    ∃ e0, s.ents.get id = some e0 ∧ (e0.protectedBy s.reg && !sys) = false ∧ deleteOne s sys id = { st := s.delEnt id } := by
   cases hg : s.ents.get id with
   | none => rw [deleteOne_missing hg] at h; cases h
   | some e0 =>
@@ -855,7 +876,7 @@ theorem step_flagInv {s : St K N T} {g : Map K Bool} (h : FlagInv (s, g)) (op : 
         · cases he
         · rename_i ha
           simp only [ha, if_false]
-          exact flagInv_unlinkAll (flagInv_delAll (m := s.ents) (ow := s.owners) h (refs s o) s.owners) o _
+          exact flagInv_unlinkAll (flagInv_delAll (m := s.ents) (ow := s.owners) (r := s.reg) h (refs s o) s.owners) o _
       · rw [step_odelete_missing ho] at he; cases he
     | deleteWhere sys q =>
       simp only
@@ -864,7 +885,7 @@ theorem step_flagInv {s : St K N T} {g : Map K Bool} (h : FlagInv (s, g)) (op : 
       · cases he
       · rename_i ha
         simp only [ha, if_false]
-        exact flagInv_delAll (m := s.ents) (ow := s.owners) h (matching s q) s.owners
+        exact flagInv_delAll (m := s.ents) (ow := s.owners) (r := s.reg) h (matching s q) s.owners
     | link sid oid =>
       simp only
       cases hg : s.ents.get sid with
@@ -927,7 +948,7 @@ def absEnt (e : Ent K N T) : SEnt K N T :=
 
 def absM (m : Map K (Ent K N T)) : Map K (SEnt K N T) := m.map fun p => (p.1, absEnt p.2)
 
-def abs (s : St K N T) : SSt K N T := { ents := absM s.ents, owners := s.owners }
+def abs (s : St K N T) : SSt K N T := { ents := absM s.ents, owners := s.owners, reg := s.reg }
 
 theorem get_absM (m : Map K (Ent K N T)) (id : K) : (absM m).get id = (m.get id).map absEnt := by
   induction m with
@@ -1053,11 +1074,11 @@ theorem wf_of_get {s : St K N T} (hw : WF s) {id : K} {e : Ent K N T} (hg : s.en
     e.flag ≠ some false := hw (id, e) (Map.get_some_mem hg)
 
 theorem wf_delAll {s : St K N T} (hw : WF s) (ids : List K) (ow : List K) :
-    WF ({ ents := s.ents.delAll ids, owners := ow } : St K N T) := by
+    WF ({ ents := s.ents.delAll ids, owners := ow, reg := s.reg } : St K N T) := by
   intro p hp; exact hw p (Map.mem_delAll hp)
 
-theorem wf_unlinkAll {m : Map K (Ent K N T)} {ow : List K} (hw : WF (⟨m, ow⟩ : St K N T)) (o : K) (ow' : List K) :
-    WF (⟨unlinkAll m o, ow'⟩ : St K N T) := by
+theorem wf_unlinkAll {m : Map K (Ent K N T)} {ow : List K} {r : Reg} (hw : WF (⟨m, ow, r⟩ : St K N T)) (o : K)
+    (ow' : List K) : WF (⟨unlinkAll m o, ow', r⟩ : St K N T) := by
   intro p hp
   unfold unlinkAll at hp
   obtain ⟨q, hq, rfl⟩ := List.mem_map.mp hp
@@ -1193,31 +1214,40 @@ theorem updEnt_owner (v : Vals K N T) (sn st so : Bool) (lvl : Option (Bool × N
 
 theorem abs_ents (s : St K N T) : (abs s).ents = absM s.ents := rfl
 theorem abs_owners (s : St K N T) : (abs s).owners = s.owners := rfl
+theorem abs_reg (s : St K N T) : (abs s).reg = s.reg := rfl
 theorem abs_putEnt (s : St K N T) (id : K) (e : Ent K N T) :
     abs (s.putEnt id e) = { abs s with ents := (abs s).ents.put id (absEnt e) } := by
-  simp only [abs, putEnt_ents, putEnt_owners, absM_put]
+  simp only [abs, putEnt_ents, putEnt_owners, putEnt_reg, absM_put]
 theorem abs_delEnt (s : St K N T) (id : K) :
     abs (s.delEnt id) = { abs s with ents := (abs s).ents.del id } := by
-  simp only [abs, delEnt_ents, delEnt_owners, absM_del]
+  simp only [abs, delEnt_ents, delEnt_owners, delEnt_reg, absM_del]
+
+/-- the spec's "protected under this registration" is the model's -/
+theorem absEnt_protectedBy (e : Ent K N T) (reg : Reg) : (absEnt e).protectedBy reg = e.protectedBy reg := rfl
 
 theorem createOn_refines (s : St K N T) (sys : Bool) (id : K) (v : Vals K N T) (lvl : Option N) (e0 : Ent K N T) :
     match (createOn s sys id v lvl e0).err with
-    | none => (!sownerOk (abs s) v.owner || ((e0.isSystem || v.flag) && !sys)) = false ∧
+    | none => (!sownerOk (abs s) v.owner || ((snew v (e0.isSystem || v.flag)
+              (match lvl with | some l => some l | none => e0.level)).protectedBy (abs s).reg && !sys)) = false ∧
         abs (createOn s sys id v lvl e0).st =
           { abs s with ents := (abs s).ents.put id (snew v (e0.isSystem || v.flag)
               (match lvl with | some l => some l | none => e0.level)) }
-    | some e => (!sownerOk (abs s) v.owner || ((e0.isSystem || v.flag) && !sys)) = true ∧ e.ignorable = false := by
-  rw [createOn_eq, sownerOk_abs]
+    | some e => (!sownerOk (abs s) v.owner || ((snew v (e0.isSystem || v.flag)
+              (match lvl with | some l => some l | none => e0.level)).protectedBy (abs s).reg && !sys)) = true ∧
+        e.ignorable = false := by
+  rw [createOn_eq, sownerOk_abs, abs_reg]
+  have hab := absEnt_mkEnt v lvl e0
+  rw [Bool.or_comm v.flag e0.isSystem] at hab
+  rw [← hab, absEnt_protectedBy]
   cases ho : ownerOk s v.owner with
   | false => simp [Err.ignorable]
   | true =>
     simp only [Bool.not_true, Bool.false_eq_true, if_false, Bool.false_or]
-    rw [Bool.or_comm e0.isSystem v.flag]
-    cases hc : ((v.flag || e0.isSystem) && !sys) with
+    cases hc : ((mkEnt v lvl e0).protectedBy s.reg && !sys) with
     | true => simp [Err.ignorable]
     | false =>
       simp only [Bool.false_eq_true, if_false, true_and]
-      rw [abs_putEnt, absEnt_mkEnt] <;> rfl
+      rw [abs_putEnt] <;> rfl
 
 /-- the level argument the spec's update sees -/
 def specLvl (lvl : Option (Bool × N)) : Option N :=
@@ -1232,10 +1262,9 @@ theorem updateOn_refines {s : St K N T} {id : K} {e : Ent K N T} (hg : s.ents.ge
     | some err => supdate (abs s) sys id v sn st so (specLvl lvl) (absEnt e) = .fail err.ignorable := by
   rw [updateOn_eq hg]
   unfold supdate
-  have hi : (absEnt e).isSys = e.isSystem := rfl
   have ho : (absEnt e).owner = e.owner := rfl
-  rw [hi, ho, updEnt_owner]
-  cases hc : (e.isSystem && !sys) with
+  rw [absEnt_protectedBy, abs_reg, ho, updEnt_owner]
+  cases hc : (e.protectedBy s.reg && !sys) with
   | true => simp [Err.ignorable]
   | false =>
     simp only [Bool.false_eq_true, if_false, sownerOk_abs]
@@ -1258,8 +1287,8 @@ theorem deleteOne_refines (s : St K N T) (sys : Bool) (id : K) :
   | none => rw [deleteOne_missing hg]; simp [sdelete, abs_ents, get_absM, hg, Err.ignorable]
   | some e =>
     rw [deleteOne_found hg]
-    have hi : (absEnt e).isSys = e.isSystem := rfl
-    cases hc : (e.isSystem && !sys) with
+    have hi : (absEnt e).protectedBy (abs s).reg = e.protectedBy s.reg := rfl
+    cases hc : (e.protectedBy s.reg && !sys) with
     | true => simp [sdelete, abs_ents, get_absM, hg, hi, hc, Err.ignorable]
     | false =>
       simp only [Bool.false_eq_true, if_false, sdelete, abs_ents, get_absM, hg, Option.map_some, hi, hc]
@@ -1281,7 +1310,7 @@ theorem step_refines (s : St K N T) (hw : WF s) (op : Op K N T) :
       | none =>
         rw [step_create_new hg]
         have := createOn_refines s sys id v none (blankEnt v.name)
-        rw [blankEnt_isSystem, Bool.false_or] at this
+        rw [blankEnt_isSystem, Bool.false_or, show (blankEnt v.name : Ent K N T).level = none from rfl] at this
         cases he : (createOn s sys id v none (blankEnt v.name)).err with
         | none =>
           rw [he] at this; simp only at this
@@ -1398,6 +1427,26 @@ theorem step_refines (s : St K N T) (hw : WF s) (op : Op K N T) :
       simp only [sstep, abs_ents, get_absM, hg, Option.map_some]
       rw [abs_putEnt]; rfl
   | read id => simp [step, sstep]
+
+/-! ### which buckets a registration looks at -/
+
+theorem mkEnt_level (v : Vals K N T) (lvl : Option N) (e : Ent K N T) :
+    (mkEnt v lvl e).level = match lvl with | some l => some l | none => e.level :=
+  congrArg SEnt.level (absEnt_mkEnt v lvl e)
+
+/-- a bucket written through the child store has child data: both registrations look at it -/
+theorem guarded_mkEnt_child (reg : Reg) (v : Vals K N T) (l : N) (e : Ent K N T) :
+    guarded reg (mkEnt v (some l) e) = (reg.onS || reg.onC) := by
+  unfold guarded; rw [mkEnt_level]; simp
+
+/-- a fresh bucket written through S has none: only a constraint on S looks at it -/
+theorem guarded_mkEnt_fresh (reg : Reg) (v : Vals K N T) (n : N) :
+    guarded reg (mkEnt v none (blankEnt n : Ent K N T)) = reg.onS := by
+  unfold guarded; rw [mkEnt_level]; simp [blankEnt]
+
+theorem guarded_some_reg {reg : Reg} {e : Ent K N T} (h : guarded reg e = true) : (reg.onS || reg.onC) = true := by
+  unfold guarded at h
+  cases h1 : reg.onS <;> cases h2 : reg.onC <;> simp_all
 
 end
 end StorageModel.C16
